@@ -290,6 +290,17 @@ pub fn check_macro(case: &MacroCase) -> CaseResult {
         if unobstructed && panicked && matches!(case.mac.as_str(), "mkdir_p" | "mkdir_m" | "mkdir_m_sticky" | "mkfile" | "write_all" | "write_all_bytes") {
             return Err(Failure::new(format!("fails-on-unobstructed-path|{}", cls), format!("{:?}({:?},{:?}) panicked ({}) although {:?} is missing and its parent is a directory", case.mac, a, b, msg, a_abs)));
         }
+        // removing macros have nothing to complain about when the operation is feasible: remove_all on anything
+        // that exists, remove on a file, a link or an empty directory
+        let removable = match (case.mac.as_str(), ka) {
+            ("remove_all", Some(_)) => a_abs != "/",
+            ("remove", Some(Kind::File)) | ("remove", Some(Kind::Link)) => true,
+            ("remove", Some(Kind::Dir)) => a_abs != "/" && pre.subtree(&a_abs).len() == 1,
+            _ => false,
+        };
+        if removable && panicked {
+            return Err(Failure::new(format!("fails-although-operation-is-feasible|{}", cls), format!("{:?}({:?}) panicked ({}) although {:?} can be removed", case.mac, a, msg, a_abs)));
+        }
         if let Some(h) = holds {
             if !panicked && !h {
                 return Err(Failure::new(format!("passes-but-postcondition-false|{}", cls), format!("{:?}({:?},{:?}) passed; afterwards {:?} is {}", case.mac, a, b, a_abs, kcls(kpost))));
@@ -364,18 +375,7 @@ pub fn run(c: &Ctx) {
     let n = c.tier.pick(1500, 20000);
     let cfg = GenCfg { names: NAMES3, avoid_through_link: true, plain_spelling: true, wild: false, handles: false };
     set_shrink_budget(60);
-    run_proptest("state", 2001, || prop::collection::vec(setup_spec(), 2..10), n, |specs: &Vec<OpSpec>| {
-        // resolve the setup against a scratch instance
-        let mem = Memfs::new();
-        let mut model = Model::fresh();
-        let mut setup = vec![];
-        let mut ex = 0u64;
-        for s in specs {
-            let op = resolve(&model, &cfg, s, &mut ex);
-            let _ = crate::fsdrive::step(&mem, &mut model, &op, &crate::fsdrive::StepOpts { model_compare: false, api_view: false });
-            setup.push(op);
-        }
-        let tree = model.t.clone();
+    let state_body = |setup: Vec<Op>, tree: Tree, directed: bool| -> CaseResult {
         let mut paths: Vec<String> = tree.nodes.keys().cloned().collect();
         paths.push("/zz".into());
         paths.push("/zz/deep".into());
@@ -403,7 +403,26 @@ pub fn run(c: &Ctx) {
             }
             false
         };
-        let stdfs_state = state_id % 5 == 0 && tree.nodes.iter().all(|(k, n)| n.kind() != Kind::Link || resolves(k));
+        let all_resolve = tree.nodes.iter().all(|(k, n)| n.kind() != Kind::Link || resolves(k));
+        let stdfs_state = (state_id % 5 == 0 && all_resolve) || directed;
+        // hand-made states: what the calls left behind is what the reference model says (names, kinds, bytes)
+        if directed {
+            let mem = Memfs::new();
+            for op in &setup {
+                let _ = crate::fsapply::apply(&mem, op);
+            }
+            let real = tree_from_dump(&mem.verif_dump());
+            let view = |t: &Tree| -> Vec<(String, String)> {
+                t.nodes.iter().map(|(k, n)| (k.clone(), match n {
+                    Node::Dir { .. } => "dir".to_string(),
+                    Node::File { data, .. } => format!("file {:?}", String::from_utf8_lossy(data)),
+                    Node::Link { target, .. } => format!("link {}", target),
+                })).collect()
+            };
+            if view(&real) != view(&tree) {
+                return Err(Failure::new("state-after-setup-differs-from-reference|memfs", format!("setup {:?} leaves {:?}, reference {:?}", setup, view(&real), view(&tree))));
+            }
+        }
         mark("state", &serde_json::to_string(&setup).unwrap());
         let mut first: Option<Failure> = None;
         let mut fps = vec![];
@@ -418,7 +437,18 @@ pub fn run(c: &Ctx) {
                             Some(Node::File { data, .. }) => String::from_utf8(data.clone()).ok(),
                             _ => None,
                         });
-                        bs = vec![content.clone().unwrap_or("fresh".into()), format!("{}x", content.unwrap_or_default()), String::new()];
+                        bs = vec![content.clone().unwrap_or("fresh".into()), format!("{}x", content.clone().unwrap_or_default()), String::new()];
+                        // near misses that agree line by line: trailing newline present or not, CRLF vs LF
+                        if let Some(ct) = &content {
+                            bs.push(format!("{}\n", ct));
+                            if let Some(t) = ct.strip_suffix('\n') {
+                                bs.push(t.to_string());
+                            }
+                            if ct.contains("\r\n") {
+                                bs.push(ct.replace("\r\n", "\n"));
+                            }
+                            bs.dedup();
+                        }
                     },
                     "readlink" => {
                         bs = vec!["nope".into()];
@@ -453,6 +483,14 @@ pub fn run(c: &Ctx) {
                         if stdfs && !stdfs_state {
                             continue;
                         }
+                        // a state with a dangling link on the real filesystem: only the macros that act on or ask
+                        // about the link itself, on that link (kinds of dangling links differ between the backends)
+                        if stdfs && !all_resolve {
+                            let on_dangling = a_abs.as_ref().map(|x| tree.kind(x) == Some(Kind::Link) && !resolves(x)).unwrap_or(false);
+                            if !(on_dangling && matches!(*mac, "remove" | "remove_all" | "is_symlink" | "no_symlink" | "readlink" | "readlink_abs")) {
+                                continue;
+                            }
+                        }
                         let case = MacroCase { stdfs, setup: setup.clone(), mac: mac.to_string(), a: a.clone(), b: b.clone() };
                         c.eval(1);
                         tick();
@@ -485,6 +523,42 @@ pub fn run(c: &Ctx) {
             Some(f) => Err(f),
             None => Ok(()),
         }
+    };
+    // directed states: create - remove - recreate under the same name (another kind, or the same kind with other
+    // content), a link replaced by a file, a dangling link
+    {
+        let w = |p: &str, d: &str| Op::WriteAll(p.to_string(), d.as_bytes().to_vec());
+        let rm = |p: &str| Op::Remove(p.to_string());
+        let directed: Vec<Vec<Op>> = vec![
+            vec![w("/a", "old-bytes"), rm("/a"), Op::Mkfile("/a".into())],
+            vec![w("/a", "old-bytes"), rm("/a"), Op::MkdirP("/a".into())],
+            vec![Op::MkdirP("/a/b".into()), Op::RemoveAll("/a".into()), w("/a", "now-a-file")],
+            vec![w("/ab", "x"), Op::Symlink("/a".into(), "/ab".into()), rm("/a"), w("/a", "plain")],
+            vec![w("/b", "data\n"), rm("/b"), Op::AppendAll("/b".into(), b"tail".to_vec())],
+            vec![Op::MkdirP("/a".into()), Op::Symlink("/a/dang".into(), "/a/nope".into()), w("/a/f", "line1\nline2\n")],
+            vec![w("/a", "line1\nline2"), w("/b", "x\r\ny\r\n"), w("/ab", "\n")],
+        ];
+        for ops in directed {
+            let tree = crate::props::c08::build_model(&ops).t.clone();
+            c.class("state:directed");
+            mark("state", &serde_json::to_string(&ops).unwrap());
+            let r = state_body(ops.clone(), tree, true);
+            c.judge("state", &ops, r);
+        }
+    }
+    run_proptest("state", 2001, || prop::collection::vec(setup_spec(), 2..10), n, |specs: &Vec<OpSpec>| {
+        // resolve the setup against a scratch instance
+        let mem = Memfs::new();
+        let mut model = Model::fresh();
+        let mut setup = vec![];
+        let mut ex = 0u64;
+        for s in specs {
+            let op = resolve(&model, &cfg, s, &mut ex);
+            let _ = crate::fsdrive::step(&mem, &mut model, &op, &crate::fsdrive::StepOpts { model_compare: false, api_view: false });
+            setup.push(op);
+        }
+        let tree = model.t.clone();
+        state_body(setup, tree, false)
     });
     crate::sandbox::cleanup();
 }
